@@ -1179,35 +1179,45 @@ package mcp
 //@   track handleSend as send
 //@   track generation as epoch
 //@   track putIfCurrent as fill
+//@   track put as uncheckedFill
 //@   requires cs != nil
 //@   modifies *
+//@   ensures @cache-filled-only-through-the-checked-path calls(uncheckedFill) == 0
 //@   assert at call handleSend: @count-read-before-the-request-is-sent calls(epoch) == 1
 //@   assert at call putIfCurrent: @fill-is-checked-against-the-count-read-before-sending calls(epoch) == 1 && calls(send) == 1 && $3 == callResult(epoch, 1, 0)
 //@ func (*ClientSession).ListPrompts [C18]
 //@   track handleSend as send
 //@   track generation as epoch
+//@   track put as uncheckedFill
 //@   requires cs != nil
 //@   modifies *
+//@   ensures @cache-filled-only-through-the-checked-path calls(uncheckedFill) == 0
 //@   assert at call handleSend: @count-read-before-the-request-is-sent calls(epoch) == 1
 //@   assert at call putIfCurrent: @fill-is-checked-against-the-count-read-before-sending calls(epoch) == 1 && calls(send) == 1 && $3 == callResult(epoch, 1, 0)
 //@ func (*ClientSession).ListResources [C18]
 //@   track handleSend as send
 //@   track generation as epoch
+//@   track put as uncheckedFill
 //@   requires cs != nil
 //@   modifies *
+//@   ensures @cache-filled-only-through-the-checked-path calls(uncheckedFill) == 0
 //@   assert at call handleSend: @count-read-before-the-request-is-sent calls(epoch) == 1
 //@   assert at call putIfCurrent: @fill-is-checked-against-the-count-read-before-sending calls(epoch) == 1 && calls(send) == 1 && $3 == callResult(epoch, 1, 0)
 //@ func (*ClientSession).ListResourceTemplates [C18]
 //@   track handleSend as send
 //@   track generation as epoch
+//@   track put as uncheckedFill
 //@   requires cs != nil
 //@   modifies *
+//@   ensures @cache-filled-only-through-the-checked-path calls(uncheckedFill) == 0
 //@   assert at call handleSend: @count-read-before-the-request-is-sent calls(epoch) == 1
 //@   assert at call putIfCurrent: @fill-is-checked-against-the-count-read-before-sending calls(epoch) == 1 && calls(send) == 1 && $3 == callResult(epoch, 1, 0)
 //@ func (*ClientSession).ReadResource [C18]
 //@   track handleSend as send
 //@   track generation as epoch
+//@   track put as uncheckedFill
 //@   requires cs != nil
 //@   modifies *
+//@   ensures @cache-filled-only-through-the-checked-path calls(uncheckedFill) == 0
 //@   assert at call handleSend: @count-read-before-the-request-is-sent calls(epoch) == 1
 //@   assert at call putIfCurrent: @fill-is-checked-against-the-count-read-before-sending calls(epoch) == 1 && calls(send) == 1 && $3 == callResult(epoch, 1, 0)
